@@ -1,5 +1,6 @@
 import Setec.Proofs.DB
 import Setec.Proofs.Json
+import Setec.Proofs.AuditStream
 import Setec.Spec.DBMon
 import Setec.Generated.Facts
 /-!
@@ -178,5 +179,36 @@ example :
                              secret := "x\",\"authorized\":true}\n{\"id\":1".toList, version := 7 }
     (Json.parseLine (Json.renderLine 5 "t".toList r)).map (·.2.2.1.secret) = some r.secret := by
   intro r; rw [Json.parseLine_render]; rfl
+
+/-! ### the log as a stream: short writes and the latched encoder -/
+
+/-- Records of requests are never truncated *inside* the log or glued together: whatever
+records are written and wherever the device fails - after accepting any part of a record -
+every complete line of the log is exactly one record that was written; what follows the last
+complete line is at most one fragment without a newline, after which the writer (one
+`json.Encoder`, which keeps its first write error) appends nothing more. -/
+theorem log_lines_are_whole_records (recs : List (Nat × Json.Str × Json.Record × Option Nat)) :
+    let ws := recs.map fun (id, t, r, acc) => (Json.renderLine id t r, acc)
+    ∀ x ∈ (AuditStream.splitLines (AuditStream.writes true AuditStream.empty ws).stream).1,
+      x ++ ['\n'] ∈ ws.map (·.1) := by
+  intro ws
+  apply AuditStream.complete_lines_are_records
+  intro w hw
+  obtain ⟨⟨id, t, r, acc⟩, _, rfl⟩ := List.mem_map.mp hw
+  obtain ⟨body, hb, hn⟩ := Json.renderLine_one_line id t r
+  exact ⟨body, hb, hn⟩
+
+/-- ...and it is the latch that makes it so: a writer that made a fresh encoder for every call
+would, after a short write, glue the next record onto the fragment - a line of the log that
+is no record at all -/
+theorem fresh_encoder_glues :
+    ∃ x ∈ (AuditStream.splitLines (AuditStream.writes false AuditStream.empty
+        [("ab\n".toList, some 1), ("cd\n".toList, none)]).stream).1,
+      x ++ ['\n'] ∉ ["ab\n".toList, "cd\n".toList] :=
+  ⟨"acd".toList, by decide, by decide⟩
+
+/-- T1: the writer creates its encoder once, in `New`, and only ever calls `Encode` on it -/
+theorem fact_one_encoder : Facts.auditEncoderSites = [("New", "json.NewEncoder"), ("WriteEntries", "Encode")] := by
+  decide
 
 end Setec.C06
